@@ -113,12 +113,13 @@ class Sys(e1.TimedSys):
         if not any(e[1] == self.tagsid and e[2] - 1 < 100 for e in ents):
             return
         m = self.model
-        used = {tag for v in m.inflight.values() for tag, _ in v}
-        tag = 100
-        while tag in used:
-            tag += 1
-        m.inflight["P1"].append((tag, self.loop.time()))
-        self.prot.announcer.queue_send(tagged_entry(self.tagsid, tag), remote=DEST["P1"])
+        for _ in range(2):  # two reactions (e.g. the peer subscribes to two eventgroups): each is an entry of its own
+            used = {tag for v in m.inflight.values() for tag, _ in v}
+            tag = 100
+            while tag in used:
+                tag += 1
+            m.inflight["P1"].append((tag, self.loop.time()))
+            self.prot.announcer.queue_send(tagged_entry(self.tagsid, tag), remote=DEST["P1"])
 
     def close(self):
         self.seam.__exit__(None, None, None)
@@ -282,6 +283,8 @@ def configs(ctx):
                                                        dests=("P3", "P4", "P1", "P5"), deviations=0, fine=0), ctx.pick(3, 4)))
     out.append(("timeout-c-answering-peer", dict(sids=s, advs=(None, "half", "next"), timeout=C, bursts=(), dests=("M", "P1"),
                                                  answering_peer=True, deviations=1, fine=0), ctx.pick(4, 5)))
+    out.append(("timeout-0-answering-peer", dict(sids=s, advs=(None,), timeout=0, bursts=(), dests=("M", "P1"), answering_peer=True,
+                                                 deviations=0, fine=0), ctx.pick(3, 4)))
     out.append(("timeout-0", dict(sids=s, advs=(None,), timeout=0, bursts=(17,), dests=("M", "P1", "P2"), lifecycle=True,
                                   deviations=1, fine=0), CLOSURE))
     return out
